@@ -1,8 +1,7 @@
 (* Conc/PipelineLiveGen5.v — the invariant of the whole system along runs; deadlock freedom except for
    the starved flush task *)
 From Coq Require Import List Arith Bool Lia.
-From SKV Require Import Conc.Pipeline Conc.PipelineExplore Conc.PipelineSpec Conc.PipelineLiveCore Conc.PipelineLiveCore2
-  Conc.PipelineLiveCore3 Conc.PipelineLiveCore4 Conc.PipelineLiveCore5
+From SKV Require Import Conc.Pipeline Conc.PipelineExplore Conc.PipelineSpec Conc.PipelineLiveBase
   Conc.PipelineLiveGen Conc.PipelineLiveGen2 Conc.PipelineLiveGen3 Conc.PipelineLiveGen4.
 Import ListNotations.
 
@@ -23,24 +22,22 @@ Proof.
   - eapply r4_gstep; eauto.
   - eapply qf_gstep; eauto.
   - eapply qref_gstep; eauto.
-  - eapply resg_gstep; eauto.
-  - eapply uniq_gstep; eauto.
-  - eapply err_gstep; eauto.
   - eapply own_gstep; eauto.
   - eapply deq_gstep; eauto.
   - eapply help_gstep; eauto.
   - eapply stall_gstep; eauto.
+  - eapply acc_gstep; eauto.
 Qed.
 
 (* a step that only touches the readers, the background state or the uaf flag *)
 Lemma ginv_frame : forall c s s', GInv c s ->
   thrs s' = thrs s -> qlog s' = qlog s -> qhead s' = qhead s -> qtail s' = qtail s -> slotv s' = slotv s ->
-  avail s' = avail s -> mutex s' = mutex s -> g_epoch (bg s) <= g_epoch (bg s') -> BGI (bg s') -> STALL c s' -> GInv c s'.
+  avail s' = avail s -> mutex s' = mutex s -> g_epoch (bg s) <= g_epoch (bg s') -> BGI (bg s') -> STALL c s' -> ACC s' -> GInv c s'.
 Proof.
-  intros c s s' HI H1 H2 H3 H4 H5 H6 H7 He Hbg Hst.
+  intros c s s' HI H1 H2 H3 H4 H5 H6 H7 He Hbg Hst Hacc.
   assert (Hg : gleG s s') by (unfold gleG, gle; rewrite H2, H3, H4; lia).
   destruct HI. constructor;
-    unfold MX, LS, PM, R1, R2, R3, R4, QF, QREF, RESG, UNIQ, ERR, OWNG, DEQG, HELPG, thr_at in *;
+    unfold MX, LS, PM, R1, R2, R3, R4, QF, QREF, OWNG, DEQG, HELPG, thr_at in *;
     rewrite ?H1, ?H2, ?H3, ?H4, ?H5, ?H6, ?H7; auto.
   intros j tj Hj. eapply gtinv_stable; eauto.
 Qed.
@@ -67,23 +64,30 @@ Proof.
 Qed.
 
 Ltac bgi_split Hbg :=
-  destruct Hbg as [B1 [B2 [B3 [B4 [B5 [B6 [B7 B8]]]]]]]; unfold BGI; simpl.
+  destruct Hbg as [B1 [B2 [B3 [B4 [B5 [B6 [B7 [B8 [B9 B10]]]]]]]]]; unfold BGI; simpl.
 
 Lemma ginv_flush_step : forall c s l s', GInv c s -> step_flush s l = Some s' -> GInv c s'.
 Proof.
-  intros c s l s' HI H. pose proof (g_bgi c s HI) as Hbg. unfold step_flush in H.
+  intros c s l s' HI H. pose proof (g_bgi c s HI) as Hbg. pose proof (g_acc c s HI) as Hacc. unfold ACC in Hacc.
+  unfold step_flush in H.
   destruct l; destruct (g_fpc (bg s)) eqn:Hf; try discriminate H; inv_guard H; try (injection H as <-); boolp.
   all: try (destruct (g_imm (bg s)) eqn:Himm).
   all: eapply ginv_frame; try exact HI; psimpl; auto; simpl; try lia.
   all: try solve [ eapply stall_epoch; [exact HI | reflexivity | reflexivity] ].
   all: try solve [ eapply stall_fl; [exact HI | reflexivity | reflexivity | reflexivity | reflexivity] ].
   all: try solve [ eapply stall_same; [exact HI | reflexivity | reflexivity | reflexivity | simpl; lia | simpl; rewrite Hf; discriminate] ].
-  all: bgi_split Hbg; rewrite ?Hf in *; simpl in *;
-    (split; [|split; [|split; [|split; [|split; [|split; [|split]]]]]]);
-    try solve [ auto | intros; discriminate | intros; lia | intros; congruence ].
-  all: intros Hx; destruct (B8 Hx) as [[Hn|[Hn|Hn]] Hn2]; try discriminate Hn; (split; [|first [exact Hn2 | auto]]); auto;
+  all: try solve [ (unfold ACC; psimpl; simpl; intros H1 H2 H3;
+                   first [ solve [destruct H1 as [H1|H1]; discriminate H1] | discriminate H2 | discriminate H3
+                         | solve [apply Hacc; auto] | solve [rewrite ?Himm; apply Hacc; auto] | solve [rewrite ?Himm; lia]
+                         | solve [rewrite H3 in *; simpl in *; boolp; lia]
+                         | solve [destruct Hbg as [_ [_ [_ [_ [_ [_ [_ [_ [_ B10]]]]]]]]]; unfold BGI in *;
+                                  first [ rewrite (B10 eq_refl) in H2 | rewrite (B10 Hf) in H2 ]; discriminate H2] ]) ].
+  all: try solve [ (bgi_split Hbg; rewrite ?Hf in *; simpl in *;
+    (split; [|split; [|split; [|split; [|split; [|split; [|split; [|split; [|split]]]]]]]]);
+    try solve [ auto | intros; discriminate | intros; lia | intros; congruence ];
+    intros Hx; destruct (B8 Hx) as [[Hn|[Hn|Hn]] Hn2]; try discriminate Hn; (split; [|first [exact Hn2 | auto]]); auto;
     try (exfalso; assert (g_stop (bg s) = true) by (apply B3; destruct (g_xpc (bg s)); simpl in *; auto; discriminate);
-         congruence).
+         congruence)) ].
 Qed.
 
 Lemma xnot_stopped : forall x, xnotified x = true -> xstopped x = true.
@@ -96,8 +100,9 @@ Proof.
   all: eapply ginv_frame; try exact HI; psimpl; auto; simpl; try lia.
   all: try solve [ eapply stall_epoch; [exact HI | reflexivity | reflexivity] ].
   all: try solve [ eapply stall_same; [exact HI | reflexivity | reflexivity | reflexivity | simpl; lia | simpl; auto] ].
+  all: try solve [ (unfold ACC; psimpl; simpl; intros H1 H2 H3; first [ discriminate H2 | solve [apply (g_acc c s HI); auto] ]) ].
   all: bgi_split Hbg; rewrite ?Hf in *; simpl in *;
-    (split; [|split; [|split; [|split; [|split; [|split; [|split]]]]]]);
+    (split; [|split; [|split; [|split; [|split; [|split; [|split; [|split; [|split]]]]]]]]);
     try solve [ auto | intros; discriminate | intros; lia | intros; congruence ].
   all: try solve [ intros Hx; destruct (B8 Hx) as [Hn1 [Hn|[Hn|Hn]]]; try discriminate Hn; (split; [first [exact Hn1 | auto]|]); auto;
     try (exfalso; assert (g_stop (bg s) = true) by (apply B3; apply xnot_stopped; exact Hx); congruence) ].
@@ -111,8 +116,9 @@ Proof.
   all: eapply ginv_frame; try exact HI; psimpl; auto; simpl; try lia.
   all: try solve [ eapply stall_epoch; [exact HI | reflexivity | reflexivity] ].
   all: try solve [ eapply stall_same; [exact HI | reflexivity | reflexivity | reflexivity | simpl; lia | simpl; auto] ].
+  all: try solve [ (unfold ACC; psimpl; simpl; intros H1 H2 H3; first [ discriminate H2 | solve [apply (g_acc c s HI); auto] ]) ].
   all: bgi_split Hbg; rewrite ?Hf in *; simpl in *;
-    (split; [|split; [|split; [|split; [|split; [|split; [|split]]]]]]);
+    (split; [|split; [|split; [|split; [|split; [|split; [|split; [|split; [|split]]]]]]]]);
     try solve [ auto | intros; discriminate | intros; lia | intros; congruence ].
 Qed.
 
@@ -123,16 +129,17 @@ Proof.
     eapply ginv_commit_step; eauto.
   - destruct (nth_error (rdrs s) i) as [r|]; [|discriminate]. unfold step_reader in H.
     destruct l; destruct r; try discriminate H; inv_guard H; try (injection H as <-); try exact HI;
-      eapply ginv_frame; try exact HI; psimpl; auto; try exact (g_bgi c s HI); exact (g_stall c s HI).
+      eapply ginv_frame; try exact HI; psimpl; auto; try exact (g_bgi c s HI); try exact (g_stall c s HI); exact (g_acc c s HI).
   - eapply ginv_flush_step; eauto.
   - eapply ginv_level_step; eauto.
   - eapply ginv_closer_step; eauto.
   - destruct l; try discriminate H. inv_guard H. injection H as <-.
     pose proof (g_bgi c s HI) as Hbg.
     eapply ginv_frame; try exact HI; psimpl; auto.
-    + bgi_split Hbg. (split; [|split; [|split; [|split; [|split; [|split; [|split]]]]]]); auto.
+    + bgi_split Hbg. (split; [|split; [|split; [|split; [|split; [|split; [|split; [|split; [|split]]]]]]]]); auto.
       intros Hx. destruct (B8 Hx) as [Hn1 Hn2]. auto.
     + eapply stall_same; [exact HI | reflexivity | reflexivity | reflexivity | simpl; lia | simpl; auto].
+    + exact (g_acc c s HI).
 Qed.
 
 Definition gok_run (c : cfg) (evs : list (actor * label)) : Prop := forall a l, In (a, l) evs -> gok_label c l.
@@ -150,7 +157,7 @@ Qed.
 Lemma ginv_init : forall c n m v, 0 < c_slots c -> GInv c (pinit c n m v).
 Proof.
   intros c n m v Hs. constructor;
-    unfold MX, LS, PM, R1, R2, R3, R4, QF, QREF, RESG, UNIQ, ERR, OWNG, DEQG, HELPG, STALL, thr_at; simpl; auto.
+    unfold MX, LS, PM, R1, R2, R3, R4, QF, QREF, OWNG, DEQG, HELPG, STALL, ACC, thr_at; simpl; auto.
   - unfold BGI, bg0. simpl. repeat split; auto; intros; discriminate.
   - rewrite repeat_length. auto.
   - lia.
@@ -163,13 +170,9 @@ Proof.
   - intros j1 j2 t1 t2 t0 p1 p2 H1 H2 Hp. apply nth_error_repeat in H1. subst. discriminate.
   - intros b Hb. discriminate.
   - intros p b _ Hb. destruct p; discriminate.
-  - intros p b Hb. destruct p; discriminate.
-  - split.
-    + intros j tj p Hj Hp. apply nth_error_repeat in Hj. subst. discriminate.
-    + intros j1 j2 t1 t2 p H1 H2 Hp. apply nth_error_repeat in H1. subst. discriminate.
-  - intros j tj p b Hj Hp. apply nth_error_repeat in Hj. subst. discriminate.
   - intros p b _ Hb. destruct p; discriminate.
   - intros p b Hp. lia.
   - intros b Hlt. lia.
   - intros j tj ep Hj [Hp|Hp]; apply nth_error_repeat in Hj; subst; discriminate.
+  - intros. lia.
 Qed.
